@@ -2,6 +2,7 @@ package validators
 
 import (
 	"fmt"
+	"go/ast"
 	"slices"
 	"strings"
 
@@ -48,6 +49,16 @@ func (v ReceiverValidator) Validate() (diagnostics.EntityDiagnostic, error) {
 
 	// Run base/common validations first
 	receiverDiag.AddDiagnostics(v.CommonValidator.Validate())
+
+	if !ast.IsExported(v.receiver.Name) {
+		// The generated router is a package of its own; it cannot call an unexported method
+		receiverDiag.AddDiagnostic(diagnostics.NewErrorDiagnostic(
+			v.receiver.Annotations.FileName(),
+			fmt.Sprintf("Method '%s' is not exported and cannot be called by the generated router", v.receiver.Name),
+			diagnostics.DiagFeatureUnsupported,
+			v.receiver.Range,
+		))
+	}
 
 	paramDiags, err := v.validateParams(v.receiver)
 	if err != nil {
